@@ -26,6 +26,9 @@ type Cfg struct {
 	KE        int64    `json:"ke"`        // PruningOptions.keepEvery
 	Backend   string   `json:"backend"`   // memdb | goleveldb
 	Lazy      bool     `json:"lazy"`      // rootmulti.SetLazyLoading (the applications never set it)
+	// SPAL: call SetPruning on the live store AFTER LoadVersion instead of before it (baseapp's
+	// SetPruning option runs before the stores are loaded, other callers configure a loaded store)
+	SPAL bool `json:"spal"`
 }
 
 // WOp is one write of a block.
@@ -65,7 +68,9 @@ func catch(f func()) (perr string, crash *Crash) {
 // Open builds a fresh rootmulti.Store over db and loads version ver (-1 = LoadLatestVersion).
 func Open(db dbm.DB, cfg Cfg, ver int64) (h *Handle, errs string) {
 	ms := rootmulti.NewStore(db)
-	ms.SetPruning(types.NewPruningOptions(cfg.KR, cfg.KE))
+	if !cfg.SPAL {
+		ms.SetPruning(types.NewPruningOptions(cfg.KR, cfg.KE))
+	}
 	ms.SetLazyLoading(cfg.Lazy)
 	keys := map[string]types.StoreKey{}
 	for _, n := range cfg.Stores {
@@ -91,6 +96,11 @@ func Open(db dbm.DB, cfg Cfg, ver int64) (h *Handle, errs string) {
 	}
 	if err != nil {
 		return nil, "error: " + err.Error()
+	}
+	if cfg.SPAL {
+		if perr, _ := catch(func() { ms.SetPruning(types.NewPruningOptions(cfg.KR, cfg.KE)) }); perr != "" {
+			return nil, perr
+		}
 	}
 	return &Handle{MS: ms, Keys: keys, Cfg: cfg}, ""
 }
